@@ -1,7 +1,16 @@
 """C11 - gentest: for a repeatable command the generated test exists, compiles and passes."""
+import ast
+import re
+
 from .. import ief, triage
+from ..effects import Effects
+from ..flow import GuardMap, Walker, World
+from ..model import AnalysisError, norm
+from ..pyeval import Interp, Unsupported, SAFE_ATTR_CALLS
+from .common import names_in, dep_closure
 
 ROOTS = ['gentest.gentest', 'gentest.gentest_wrapper']
+GT = 'tdda.referencetest.gentest.'
 
 
 def check(run):
@@ -9,3 +18,405 @@ def check(run):
     roots = [p.fn(r) for r in ROOTS]
     ief.run_ief(run, 'C11', roots, triage=triage.IEF, noreturn=('self.fail',))
     run.floor('C11-IEF', run.units['ief_functions_checked'], 100)
+    exc(run, p)
+    template(run, p, 'C11')
+    effects(run, p)
+    mustemit(run, p, 'C11-MUSTEMIT')
+    joinrepr(run, p)
+    run.assume('file names of scripts and encodings are made of characters that need no escaping in Python source')
+    run.trust('repr() of a str is a valid Python expression denoting it; os.path functions are pure')
+
+
+# ---------------------------------------------------------------------------
+def exc(run, p):
+    run.rule('C11-EXC', 'every datetime construction from numbers found in the command\'s output sits inside a try that catches ValueError '
+                        '(three numbers in a line are usually not a date)')
+    n = 0
+    for f in p.funcs.values():
+        if f.mod.name != 'tdda.referencetest.gentest':
+            continue
+        gm = None
+        for x in p.own_nodes(f):
+            if isinstance(x, ast.Call) and norm(x.func) in ('datetime.datetime', 'datetime.date') and x.args and \
+                    not all(isinstance(a, ast.Constant) for a in x.args):
+                # only numbers parsed out of text (regex groups, month-name lookups) can fail to be a date
+                srcs = set()
+                for a in x.args:
+                    srcs |= names_in(a)
+                parsed = False
+                for s2 in ast.walk(f.node):
+                    if isinstance(s2, ast.Assign) and any(nm in {y.id for t in s2.targets for y in ast.walk(t) if isinstance(y, ast.Name)} for nm in srcs) \
+                            and ('.group(' in ast.unparse(s2.value) or 'MONTH_MAP' in ast.unparse(s2.value)):
+                        parsed = True
+                if srcs and srcs <= set(f.params) and all(isinstance(a, ast.Name) for a in x.args):
+                    parsed = True          # a helper that builds a date from numbers it is handed
+                if not parsed:
+                    continue
+                n += 1
+                gm = gm or GuardMap(f.node)
+                ok = False
+                for g in gm.chain(x) or ():
+                    if g.kind == 'try':
+                        ok = ok or any(h.type is None or 'ValueError' in ast.unparse(h.type) or norm(h.type) == 'Exception'
+                                       for h in g.test.handlers)
+                run.ob('C11-EXC', '%s::%s::%s' % (f.rel, f.short, norm(x)[:40]), ok,
+                       '%s in %s %s' % (norm(x)[:40], f.short, 'is guarded' if ok else 'raises ValueError for numbers that are not a date (e.g. "version 1.2.0 build 15", "31/02/2020")'),
+                       fn=f, node=x)
+    run.floor('C11-EXC', n, 1)
+
+
+# ---------------------------------------------------------------------------
+def slot_contexts(tmpl):
+    """{KEY: context} for %(KEY)s slots of the script header template."""
+    out = {}
+    doc = re.search(r'"""(.*?)"""', tmpl, re.S)
+    for m in re.finditer(r'%\((\w+)\)([sd])', tmpl):
+        key, spec = m.group(1), m.group(2)
+        if spec == 'd':
+            ctx = 'int'
+        elif doc and doc.start() < m.start() < doc.end():
+            ctx = 'docstring'
+        else:
+            before = tmpl[:m.start()]
+            after = tmpl[m.end():]
+            line_before = before.rsplit('\n', 1)[-1]
+            line_after = after.split('\n', 1)[0]
+            if re.search(r'[A-Za-z0-9_]$', line_before) or re.match(r'[A-Za-z0-9_]', line_after):
+                ctx = 'identifier'
+            elif line_before.strip() == '' and line_after.strip() == '':
+                ctx = 'block'
+            else:
+                ctx = 'expression'
+        out.setdefault(key, set()).add(ctx)
+    return out
+
+
+def is_sanitiser(e):
+    """''.join(c if c.isalnum() else '_' for c in X) or a call to a function that does that."""
+    if isinstance(e, ast.Call) and isinstance(e.func, ast.Attribute) and e.func.attr == 'join' and e.args and \
+            isinstance(e.args[0], (ast.GeneratorExp, ast.ListComp)):
+        elt = e.args[0].elt
+        return isinstance(elt, ast.IfExp) and 'isalnum' in ast.unparse(elt.test) and isinstance(elt.orelse, ast.Constant)
+    return False
+
+
+def sanitising_function(f):
+    return any(is_sanitiser(x) for x in ast.walk(f.node)) or 'sub(' in ast.unparse(f.node) and '[^' in ast.unparse(f.node)
+
+
+def value_class(p, f, e, depth=0):
+    """Class of a value written into generated source."""
+    if isinstance(e, ast.Constant):
+        return 'CONST'
+    if isinstance(e, ast.Call):
+        fn = e.func
+        name = fn.attr if isinstance(fn, ast.Attribute) else getattr(fn, 'id', None)
+        if name == 'repr':
+            return 'PY_EXPR'
+        if is_sanitiser(e):
+            return 'IDENT'
+        if name in ('upper', 'lower', 'title', 'strip') and isinstance(fn, ast.Attribute):
+            return value_class(p, f, fn.value, depth)
+        if name == 'replace' and isinstance(fn, ast.Attribute) and len(e.args) == 2 and isinstance(e.args[0], ast.Constant) \
+                and e.args[0].value == '"""':
+            inner = value_class(p, f, fn.value, depth)
+            return 'DOC_SAFE' if inner in ('REPR_TEXT', 'CONST', 'DOC_SAFE') else inner
+        if name == 'basename':
+            inner = e.args[0] if e.args else None
+            if inner is not None and 'script' in ast.unparse(inner) and '[' not in ast.unparse(inner):
+                return 'FILENAME'
+            return 'RAW'
+        if name in ('quote_raw', 'as_join_repr'):
+            return 'PY_EXPR'
+        ts, kind = p.resolve_call(f, e, f.cls.qn if f.cls else None)
+        if kind == 'resolved' and ts and depth < 2:
+            g = ts[0][0]
+            if sanitising_function(g):
+                return 'IDENT'
+            rets = [r.value for r in ast.walk(g.node) if isinstance(r, ast.Return) and r.value is not None]
+            cls = {text_class(p, g, r, depth + 1) for r in rets}
+            if cls <= {'REPR_TEXT', 'CONST'}:
+                return 'REPR_TEXT' if 'REPR_TEXT' in cls else 'CONST'
+            return 'BLOCK'
+        return 'RAW'
+    if isinstance(e, ast.Name):
+        return 'BLOCK'
+    if isinstance(e, ast.Attribute):
+        return 'INT' if e.attr in ('exit_code',) else 'RAW'
+    return 'RAW'
+
+
+def text_class(p, f, e, depth):
+    """REPR_TEXT if e is text assembled only from constants and repr()/sanitised pieces."""
+    if isinstance(e, ast.Constant):
+        return 'CONST'
+    if isinstance(e, ast.BinOp) and isinstance(e.op, (ast.Add, ast.Mod)):
+        parts = [e.left] + (list(e.right.elts) if isinstance(e.op, ast.Mod) and isinstance(e.right, ast.Tuple) else [e.right])
+        cls = {text_class(p, f, x, depth) for x in parts}
+        return 'REPR_TEXT' if cls <= {'CONST', 'REPR_TEXT'} else 'RAW'
+    if isinstance(e, ast.IfExp):
+        cls = {text_class(p, f, e.body, depth), text_class(p, f, e.orelse, depth)}
+        return 'REPR_TEXT' if cls <= {'CONST', 'REPR_TEXT'} else 'RAW'
+    if isinstance(e, ast.Call):
+        name = e.func.attr if isinstance(e.func, ast.Attribute) else getattr(e.func, 'id', None)
+        if name == 'repr':
+            return 'REPR_TEXT'
+        if name == 'join' and e.args:
+            a = e.args[0]
+            if isinstance(a, (ast.GeneratorExp, ast.ListComp)):
+                return text_class(p, f, a.elt, depth)
+            if isinstance(a, ast.BinOp):
+                return text_class(p, f, a, depth)
+            if isinstance(a, ast.Name):
+                return text_class(p, f, a, depth)
+        if name == 'strip' and isinstance(e.func, ast.Attribute):
+            return text_class(p, f, e.func.value, depth)
+        return 'RAW'
+    if isinstance(e, ast.Name):
+        vals = [s.value for s in ast.walk(f.node) if isinstance(s, ast.Assign) and any(norm(t) == e.id for t in s.targets)]
+        app = [c.args[0] for c in ast.walk(f.node) if isinstance(c, ast.Call) and isinstance(c.func, ast.Attribute)
+               and c.func.attr == 'append' and norm(c.func.value) == e.id and c.args]
+        aug = [s.value for s in ast.walk(f.node) if isinstance(s, ast.AugAssign) and norm(s.target) == e.id]
+        if not vals:
+            return 'RAW'
+        cls = {text_class(p, f, v, depth) if not isinstance(v, (ast.List, ast.Tuple)) else
+               ('CONST' if all(isinstance(x, ast.Constant) for x in v.elts) else 'RAW') for v in vals + app + aug}
+        return 'REPR_TEXT' if cls <= {'CONST', 'REPR_TEXT'} else 'RAW'
+    if isinstance(e, ast.List) and all(isinstance(x, ast.Constant) for x in e.elts):
+        return 'CONST'
+    return 'RAW'
+
+
+NEED = {'docstring': {'DOC_SAFE', 'FILENAME', 'CONST'}, 'identifier': {'IDENT', 'CONST'}, 'expression': {'PY_EXPR', 'CONST'},
+        'block': {'BLOCK', 'CONST', 'PY_EXPR'}, 'int': {'INT', 'CONST'}}
+
+
+def template(run, p, pid):
+    rid = pid + '-TEMPLATE'
+    run.rule(rid, 'every slot of the generated script is filled with text of the right class for its place in Python source: identifiers '
+                  'are sanitised, expressions are repr()/quote_raw()/as_join_repr(), text inside the module docstring cannot end it or '
+                  'form an invalid escape, test names come from the sanitising test_name()')
+    bp = p.mod('tdda.referencetest.gentest_boilerplate')
+    header = p.const(bp, 'HEADER')
+    ctxs = slot_contexts(header)
+    ws = p.method('TestGenerator', 'write_script')
+    d = None
+    for x in ast.walk(ws.node):
+        if isinstance(x, ast.BinOp) and isinstance(x.op, ast.Mod) and norm(x.left) == 'HEADER' and isinstance(x.right, ast.Dict):
+            d = x.right
+    if d is None:
+        raise AnalysisError('write_script no longer fills HEADER with a dict literal')
+    given = {k.value: v for k, v in zip(d.keys, d.values) if isinstance(k, ast.Constant)}
+    for key, cs in sorted(ctxs.items()):
+        if key not in given:
+            run.ob(rid, 'HEADER:%s' % key, False, 'slot %s of the header is never filled' % key, fn=ws, node=d)
+            continue
+        vc = value_class(p, ws, given[key])
+        for c in sorted(cs):
+            ok = vc in NEED[c]
+            run.ob(rid, 'HEADER:%s' % key, ok,
+                   'header slot %s is %s context and receives %s (%s)' % (key, c, norm(given[key])[:50], vc), fn=ws, node=given[key])
+    # test_def slots: checked at its call sites in write_script
+    n = 0
+    for x in p.own_nodes(ws):
+        if isinstance(x, ast.Call) and getattr(x.func, 'id', '') == 'test_def' and len(x.args) >= 4:
+            n += 1
+            name, actual, kind, ref = x.args[:4]
+            nc = 'CONST' if isinstance(name, ast.Constant) else _name_class(p, ws, name)
+            run.ob(rid, 'test_def:%s:name' % norm(name)[:20], nc in ('CONST', 'IDENT'),
+                   'test method name %s is %s' % (norm(name), nc), fn=ws, node=x)
+            for role, a in (('actual', actual), ('reference', ref)):
+                ac = 'CONST' if isinstance(a, ast.Constant) else _name_class(p, ws, a)
+                run.ob(rid, 'test_def:%s:%s' % (norm(name)[:20], role), ac in ('CONST', 'PY_EXPR'),
+                       '%s argument %s is %s' % (role, norm(a), ac), fn=ws, node=x)
+    td = p.fn(GT + 'test_def')
+    for x in ast.walk(td.node):
+        if isinstance(x, ast.BinOp) and isinstance(x.op, ast.Mod) and isinstance(x.left, ast.Constant) and isinstance(x.left.value, str) \
+                and x.left.value.strip().startswith('%s,'):
+            arg = x.right
+            vc = 'PY_EXPR' if isinstance(arg, ast.Call) and getattr(arg.func, 'id', '') in ('quote_raw', 'repr') else \
+                ('PY_EXPR' if isinstance(arg, ast.Name) and arg.id == 's' else 'RAW')
+            run.ob(rid, 'test_def:list-item:%s' % norm(arg)[:20], vc == 'PY_EXPR', 'list item `%s` is written as %s' % (norm(x)[:40], vc), fn=td, node=x)
+    qr = p.fn(GT + 'quote_raw')
+    rets = [r for r in ast.walk(qr.node) if isinstance(r, ast.Return)]
+    gm = GuardMap(qr.node)
+    okq = True
+    for r in rets:
+        v = r.value
+        if isinstance(v, ast.Call) and getattr(v.func, 'id', '') == 'repr':
+            continue
+        if isinstance(v, ast.BinOp) and isinstance(v.left, ast.Constant):
+            m = re.match(r"^r('''|\"\"\"|'|\")%s\1$", v.left.value)
+            if not m:
+                okq = False
+                continue
+            delim = m.group(1)
+            ch = gm.chain(r) or ()
+            okq = okq and any(g.kind == 'if' and g.pol and isinstance(g.test, ast.Compare) and isinstance(g.test.ops[0], ast.NotIn)
+                              and isinstance(g.test.left, ast.Constant) and g.test.left.value == delim for g in ch)
+        else:
+            okq = False
+    run.ob(rid, 'quote_raw', okq and len(rets) >= 3, 'quote_raw picks a raw-string delimiter that does not occur in the text, else repr()', fn=qr)
+    run.floor(rid, len(ctxs) + n, 12)
+
+
+def _name_class(p, f, e):
+    if isinstance(e, ast.Name):
+        defs = [s for s in ast.walk(f.node) if isinstance(s, ast.Assign) and any(norm(t) == e.id for t in s.targets)
+                and s.lineno < e.lineno]
+        # the definition that reaches a use in straight-line code is the last one before it
+        vals = [max(defs, key=lambda s: s.lineno).value] if defs else []
+        cls = {value_class(p, f, v) for v in vals}
+        if len(cls) == 1:
+            return next(iter(cls))
+        return 'RAW' if 'RAW' in cls or not cls else sorted(cls)[0]
+    return value_class(p, f, e)
+
+
+# ---------------------------------------------------------------------------
+def effects(run, p):
+    run.rule('C11-EFFECTS', 'every file-system write or delete that test generation performs targets the reference directory, a path under '
+                            'it, or the script itself (the fresh mkdtemp directory under the system temp dir aside)')
+    E = Effects(p, extra_ref_producers=('ref_path', 'stdout_path', 'stderr_path'), tmp_attrs=(),
+                attr_tags={'refdir': 'REFDIR', 'script': 'SCRIPT'})
+    c = p.cls('TestGenerator')
+    effs, _ = E.summary(c.methods['__init__'], c.qn)
+    ok_tags = {'REFDIR', 'REF', 'SCRIPT', 'BASENAME', 'RELSAFE', 'SYSTMP', 'INT'}
+    for e in effs:
+        good = bool(e.prov & {'REFDIR', 'REF', 'SCRIPT', 'SYSTMP'}) and all(t in ok_tags or t.startswith('const:') for t in e.prov)
+        run.ob('C11-EFFECTS', '%s(%s)@%s' % (e.kind, ','.join(sorted(e.prov)), '>'.join(e.via)), good,
+               e.describe()[:200], fn=e.fn, node=e.node, detail={'provenance': sorted(e.prov)})
+    # module-level effects
+    m = p.mod('tdda.referencetest.gentest')
+    for s in m.tree.body:
+        for x in ast.walk(s) if not isinstance(s, (ast.FunctionDef, ast.ClassDef)) else []:
+            if isinstance(x, ast.Call) and norm(x.func) in ('tempfile.mkdtemp', 'os.mkdir', 'os.makedirs', 'open'):
+                run.ob('C11-EFFECTS', 'module:%s' % norm(x)[:30], norm(x.func) == 'tempfile.mkdtemp',
+                       'module-level effect %s' % norm(x)[:40], rel=m.rel, line=x.lineno, nontrivial=False)
+    # no other primitive effect anywhere in the module outside the TestGenerator closure
+    seen = p.reach([(c.methods['__init__'], c.qn)])
+    reach = {q for q, _ in seen}
+    for f in p.funcs.values():
+        if f.mod.name != 'tdda.referencetest.gentest' or f.qn in reach:
+            continue
+        e2, _ = E.summary(f, f.cls.qn if f.cls else None)
+        for e in e2:
+            if not e.via:
+                run.note('C11-EFFECTS', 'effect outside the generation path: %s' % e.describe()[:120], f, e.node)
+    run.floor('C11-EFFECTS', len(effs), 9)
+
+
+# ---------------------------------------------------------------------------
+class _Emit(Walker):
+    def init_state(self):
+        return 0
+
+    def transfer(self, s, ws):
+        n = 0
+        for x in ast.walk(s) if isinstance(s, ast.Expr) else []:
+            if isinstance(x, ast.Call) and getattr(x.func, 'id', '') == 'test_def':
+                n += 1
+        if n:
+            return [World(w.asg, w.atoms, w.weak, w.state + n) for w in ws]
+        return ws
+
+
+def mustemit(run, p, rid):
+    run.rule(rid, 'in write_script every pass through the per-reference-file loop writes exactly one test (TextFile or BinaryFile); the '
+                  'stdout test is written exactly when check_stdout, the stderr test exactly when check_stderr')
+    ws = p.method('TestGenerator', 'write_script')
+    loop = None
+    for x in ast.walk(ws.node):
+        if isinstance(x, ast.For) and any(isinstance(c, ast.Call) and getattr(c.func, 'id', '') == 'test_def' for c in ast.walk(x)):
+            loop = x
+    if loop is None:
+        raise AnalysisError('write_script: loop over reference files not found')
+    fake = ast.FunctionDef(name='_body', args=ast.arguments(posonlyargs=[], args=[], kwonlyargs=[], kw_defaults=[], defaults=[]),
+                           body=loop.body, decorator_list=[], lineno=loop.lineno, col_offset=0)
+    w = _Emit(fake, {'self', 'f', 'path', 'reference_files', 'r', 'actual_paths'})
+    w.run()
+    counts = set()
+    for kind, node, wl in w.exits:
+        for x in wl:
+            if not x.weak:
+                counts.add(x.state)
+    run.ob(rid, 'write_script:per-file', counts == {1}, 'tests written per reference file on the paths of the loop body: %s' % sorted(counts), fn=ws, node=loop)
+    gm = GuardMap(ws.node)
+    for stream, flag, var in (('stdout', 'self.check_stdout', 'self.output'), ('stderr', 'self.check_stderr', 'self.error')):
+        calls = [x for x in p.own_nodes(ws) if isinstance(x, ast.Call) and getattr(x.func, 'id', '') == 'test_def'
+                 and x.args and isinstance(x.args[0], ast.Constant) and x.args[0].value == stream]
+        ok = len(calls) == 1
+        if ok:
+            ch = [g for g in gm.chain(calls[0]) or () if g.kind == 'if']
+            ok = len(ch) == 1 and ch[0].pol and norm(ch[0].test) == flag and norm(calls[0].args[1]) == repr(var)
+        run.ob(rid, 'write_script:%s' % stream, ok, 'the %s test is written once, under exactly [%s], on %s' % (stream, flag, var), fn=ws,
+               node=calls[0] if calls else None)
+    run.floor(rid, 3, 3)
+
+
+# ---------------------------------------------------------------------------
+def joinrepr(run, p):
+    run.rule('C11-JOINREPR', 'the path expression as_join_repr writes into the script denotes the original path when evaluated with '
+                             'self.cwd / self.refdir set as the generated class sets them (evaluated on a grid of path/cwd shapes)')
+    import os.path as osp
+    f = p.fn(GT + 'as_join_repr')
+    I = Interp(p, consts={'TMPDIR': '/tmp/tmpXYZ', 'TERM_TMPDIR': '/tmp/tmpXYZ/'})
+    extra = {'os.path.join': osp.join, 'os.path.isabs': osp.isabs, 'os.path.basename': osp.basename, 'os.path.split': osp.split,
+             'os.path.abspath': osp.normpath, 'os.path.normpath': osp.normpath}
+    saved = dict(SAFE_ATTR_CALLS)
+    SAFE_ATTR_CALLS.update(extra)
+
+    class _P:
+        sep = '/'
+    cwd = '/w/job'
+    name = 'cmd'
+    paths = ['/w/job/out.txt', '/w/job/sub/dir/out.txt', '/w/job_outputs/result.txt', '/w/jobs.txt', '/other/place/x.txt',
+             '/w/job/ref/cmd/STDOUT', '/w/job/ref/cmd/out.txt', '/w/job/ref/other/out.txt', "/w/job/it's.txt", '/w/job/a b/c.txt']
+    bad = []
+    n = 0
+    try:
+        for path in paths:
+            for c in (cwd, cwd + '/'):
+                I.consts['os'] = None
+                out = _call_with_os(I, f, [path, c, name])
+                n += 1
+                val = _eval_expr(out, {'cwd': cwd, 'refdir': cwd + '/ref/' + name, 'tmpdir': '/tmp/tmpXYZ'})
+                if val != path:
+                    bad.append((path, c, out, val))
+    except Unsupported as e:
+        raise AnalysisError('as_join_repr not interpretable: %s' % e)
+    finally:
+        SAFE_ATTR_CALLS.clear()
+        SAFE_ATTR_CALLS.update(saved)
+    run.ob('C11-JOINREPR', 'as_join_repr', not bad,
+           '%d (path, cwd) shapes evaluated%s' % (n, '' if not bad else '; as_join_repr(%r, %r) = %s which denotes %r' % bad[0]), fn=f)
+    run.floor('C11-JOINREPR', n, 16)
+
+
+def _call_with_os(I, f, args):
+    # os.path.sep is the only attribute of os that as_join_repr reads besides the functions whitelisted above
+    orig = I.expr
+
+    def expr(e, env, mod):
+        if isinstance(e, ast.Attribute) and norm(e) == 'os.path.sep':
+            return '/'
+        return orig(e, env, mod)
+    I.expr = expr
+    try:
+        return I.call(f, args)
+    finally:
+        I.expr = orig
+
+
+def _eval_expr(src, attrs):
+    """Value of the tiny expression language as_join_repr emits: a string literal or os.path.join(self.X, 'lit')."""
+    import os.path as osp
+    e = ast.parse(src, mode='eval').body
+    if isinstance(e, ast.Constant):
+        return e.value
+    if isinstance(e, ast.Call) and norm(e.func) == 'os.path.join' and len(e.args) == 2 and isinstance(e.args[1], ast.Constant):
+        a = e.args[0]
+        key = a.attr if isinstance(a, ast.Attribute) else getattr(a, 'id', None)
+        if key in attrs:
+            return osp.join(attrs[key], e.args[1].value)
+    return '<uninterpretable: %s>' % src
